@@ -288,15 +288,17 @@ fn exec_history(t: &mut Tape, st: &mut Stats) -> Result<(), String> {
             None
         };
         let input = &pattern()[200 + off..200 + off + input_len];
-        let fresh = one_write(api, kind, input_len, out)?;
+        // the advertised maximum for this buffer, asked on a fresh body (asking this body is itself part of some histories)
+        let m = Sender::new(Api::Flow, kind)?.max_input(out).unwrap_or(0);
         let (c, p) = with_out(out, |o| s.write(input, o)).map_err(|e| format!("step {}: write(in = {}, out = {}) failed: {:?}", i, input_len, out, e))?;
-        st.evals(2);
+        st.evals(1);
         desc.push(json!({"asked_max_input_for": asked, "in": input_len, "out": out, "consumed": c}));
         if c == 0 {
             return Err(format!("step {} of a history: write of {} bytes into a {}-byte buffer consumed 0 (produced {}); history so far {:?}", i, input_len, out, p, desc));
         }
-        if c != fresh {
-            return Err(format!("step {} of a history: write of {} bytes into a {}-byte buffer consumed {} but {} on a fresh body; history so far {:?}", i, input_len, out, c, fresh, desc));
+        // never less than had only the advertised maximum been offered (which is consumed completely: C18)
+        if input_len >= m && c < m {
+            return Err(format!("step {} of a history: write of {} bytes into a {}-byte buffer consumed {} but the advertised maximum {} fits; history so far {:?}", i, input_len, out, c, m, desc));
         }
         off += c;
     }
@@ -328,7 +330,7 @@ decodes to the consumed prefix. enumeration 'small' (thorough): all L <= 300 for
 whole-body send loops with a fixed buffer must terminate within |body| writes and decode to the body. \
 random 'histories': 2..10 writes on one body with buffers that grow and shrink (6..12, hex-digit boundaries, up to 12000), inputs \
 around the buffer size and around 16 / 256 / 4096 / 8192 / 10240, calculate_max_input() asked about the same or another size in \
-between: each write consumes >= 1 and exactly what the same write consumes on a fresh body; length-delimited histories interleave refused \
+between: each write consumes >= 1, and at least the advertised maximum for its buffer when that much was offered; length-delimited histories interleave refused \
 operations (overshooting write, overshooting direct-write report), after which legal writes must still consume min(in, out). non-trivial = chunked pair with L > n-5 and n >= 21, or n-5-L in {0,1}; distinct by (n, L, api); loops with >= 2 writes.",
     assumptions: &[
         "a fresh sender per (L, n) pair, so pairs are independent",
